@@ -309,9 +309,10 @@ def check(prog: Program, tier: str) -> Result:
     _r13_6(prog, res, ret_units)
     _r13_7(prog, res)
     _r13_8(prog, res)
+    _r13_9(prog, res)
     _r13_3(prog, res)
     _r13_4(prog, res)
-    res.floors.update({"R13.1": 3, "R13.2": 1, "R13.3": 4, "R13.4": 3, "R13.5": 2, "R13.7": 2, "R13.8": 1})
+    res.floors.update({"R13.1": 3, "R13.2": 1, "R13.3": 4, "R13.4": 3, "R13.5": 2, "R13.7": 2, "R13.8": 1, "R13.9": 1})
     res.analysed.update({"position_expressions": n_expr, "functions_returning_positions": {f"{k[0]}.{k[1]}": v for k, v in sorted(ret_units.items())}})
     return res
 
@@ -513,6 +514,57 @@ def _r13_8(prog: Program, res: Result) -> None:
 
 
 
+# ------------------------------------------------------------------------------------------------ R13.9
+def _r13_9(prog: Program, res: Result) -> None:
+    """Line and column of a match are positions in the text PYTHON sees: a module is decoded by its byte order mark and coding
+    cookie (PEP 263), utf-8 otherwise.  The command line finder has to read files the same way - `tokenize.open` (or
+    `tokenize.detect_encoding` + decode); `Path.read_text()` / `open(..)` decode by locale or a fixed codec: a file with a
+    BOM reaches the parser with U+FEFF in front (SyntaxError), a latin-1 file raises UnicodeDecodeError, and the finder
+    aborts without a location for this and all following files.  Every text that main() hands to finditer / sub flows
+    from tokenize.open, and the read sits in a handler for decoding errors."""
+    fn = prog.funcs.get(("pattern_matching", "main"))
+    if fn is None:
+        raise AnalysisError("anchor pattern_matching.main not found")
+    consumers = [c for c in prog.calls_in(fn) if norm(c.func) in ("finditer", "sub", "subn", "findall", "search", "match", "fullmatch") and len(c.args) >= 2]
+    if not consumers:
+        res.undecided("R13.9", fn.loc(), fn.fq, "text handed to the matcher", "no call of finditer / sub found in main()")
+        return
+    seen = set()
+    for c in consumers:
+        text = c.args[-1]
+        if not isinstance(text, ast.Name) or text.id in seen:
+            continue
+        seen.add(text.id)
+        defs = [(st, v) for st, v in bindings(fn).get(text.id, []) if v is not None]
+        ok, why = bool(defs), "the text has no visible source"
+        for st, v in defs:
+            t = norm(v)
+            reads = ".read()" in t or ".read_text(" in t or "open(" in t
+            if not reads:
+                continue
+            # `X.read()` where X is bound by `with tokenize.open(..) as X`
+            src_ok = False
+            if isinstance(v, ast.Call) and isinstance(v.func, ast.Attribute) and v.func.attr == "read" and isinstance(v.func.value, ast.Name):
+                stream = v.func.value.id
+                for w in walk_own(fn.node):
+                    if isinstance(w, ast.With):
+                        for item in w.items:
+                            if isinstance(item.optional_vars, ast.Name) and item.optional_vars.id == stream and norm(item.context_expr.func if isinstance(item.context_expr, ast.Call) else item.context_expr) == "tokenize.open":
+                                src_ok = True
+            handled = False
+            a = parent(st)
+            while a is not None and a is not fn.node:
+                if isinstance(a, ast.Try) and any(h.type is None or any(k in norm(h.type) for k in ("UnicodeDecodeError", "UnicodeError", "ValueError", "Exception")) for h in a.handlers):
+                    handled = True
+                a = parent(a)
+            ok = src_ok and handled
+            why = ("read with tokenize.open inside a handler for decoding errors" if ok else
+                   (f"`{short(v, 50)}` does not decode the file the way python does (byte order mark, coding cookie)" if not src_ok else
+                    "the read is not in a handler for UnicodeDecodeError: one undecodable file ends the search without a location for the others"))
+        res.decide(ok, "R13.9", fn.loc(c), fn.fq, f"{short(c, 50)} # the text of a file handed to the matcher", why)
+
+
+
 def _r13_4(prog: Program, res: Result) -> None:
     """match / fullmatch succeed exactly when SOME candidate is anchored: the candidates of find_replace come in
     tree-walk order, not in position order, so the scan must look at every candidate - the only early exit from the
@@ -579,6 +631,8 @@ def _r13_4(prog: Program, res: Result) -> None:
 from ..selftest import Variant  # noqa: E402
 
 VARIANTS: List[Variant] = [
+    Variant("finder-reads-files-by-locale", "FIRE", "pattern_matching", "            with tokenize.open(filename) as stream:\n                source = stream.read()\n                encoding = stream.encoding\n", "            source = filename.read_text()\n            encoding = None\n", "R13.9"),
+    Variant("finder-read-outside-a-handler", "FIRE", "pattern_matching", "        except (OSError, SyntaxError, UnicodeDecodeError) as error:", "        except OSError as error:", "R13.9"),
     Variant("peek-in-front-of-offset-zero", "FIRE", "core", "        at_sign = re.search(r\"@[\\s\\\\(]*\\Z\", source[:start_charno])\n        if at_sign:\n            start_charno = at_sign.start()\n", "        if source[start_charno - 1] == \"@\":\n            start_charno -= 1\n", "R13.6"),
     Variant("at-sign-directly-in-front-only", "FIRE", "core", "        at_sign = re.search(r\"@[\\s\\\\(]*\\Z\", source[:start_charno])\n", "        at_sign = re.search(r\"@\\Z\", source[:start_charno])\n", "R13.8"),
     Variant("string-pieces-trimmed-again", "FIRE", "core", "    if code and code[0] == \" \" and not isinstance(node, ast.Constant):", "    if code and code[0] == \" \":", "R13.7"),
